@@ -27,6 +27,7 @@ def FragT : Stmt → Bool
   | .put m v lv => FragS (.put m v lv)
   | .delete t => FragS (.delete t)
   | .hilite t => FragS (.hilite t)
+  | .mcall o m as => FragS (.mcall o m as)
   | _ => false
 def FragTs : List Stmt → Bool
   | [] => true
